@@ -33,8 +33,27 @@ def mimap(w, h, sbl, bs="BLOCK_4X4"):
              what="the parser's per-block write into the 4x4 mode-info offset map stays inside the allocation")
 
 
+def gen_reinit(wd):
+    import os
+    from vlib import slicer
+    PO = "Source/Lib/Decoder/Codec/EbDecParseObu.c"
+    blk = slicer.between(PO, "        case OBU_SEQUENCE_HEADER: {\n", "            break;\n        }\n        case OBU_FRAME_HEADER:")
+    open(os.path.join(wd, "c10_reinit.inc"), "w").write(
+        slicer.functions(MI, ["init_dec_mod_ctxt", "init_lf_ctxt", "init_lr_ctxt"])
+        + "\n/* sliced verbatim from decode_multiple_obu (EbDecParseObu.c): the OBU_SEQUENCE_HEADER case */\n"
+        + "static EbErrorType seq_header_case(EbDecHandle *dec_handle_ptr, Bitstrm bs) {\n    EbErrorType status = EB_ErrorNone;\n    switch (OBU_SEQUENCE_HEADER) {\n" + blk + "            break;\n        }\n    default: break;\n    }\n    return status;\n}\n")
+
+
+def reinit():
+    from vlib.core import Query as Q
+    return Q(name="memory_reinitialised_when_sequence_header_needs_larger_buffers", harness="C10/reinit.c", gen=gen_reinit, unwind=42, timeout=1200, mem_gb=16, flags=["--slice-formula", "--object-bits", "12"],
+             funcs=["Source/Lib/Decoder/Codec/EbDecParseObu.c:decode_multiple_obu (OBU_SEQUENCE_HEADER case, sliced)", MI + ":init_dec_mod_ctxt", MI + ":init_lf_ctxt", MI + ":init_lr_ctxt"],
+             bound="every pair (old header, new header) with superblock 64/128, maximum frame size 16..4096 x 16..2304, bit depth 8/10/12, monochrome 0/1, chroma format 4:2:0/4:2:2/4:4:4, 8- or 16-bit pipeline, single-threaded decoder; the sequence-header parser is replaced by 'any new header, success or failure'; the allocators of the picture manager, parse context and frame buffers (init_main_frame_ctxt, dec_pic_mgr_init, init_parse_context) are outside",
+             what="if the decoder keeps its memory after a second sequence header, no buffer of the three allocators would have to be larger for the new header (spliced-stream heap overflow otherwise)")
+
+
 def queries(tier):
-    qs = []
+    qs = [reinit()]
     for n in ([2, 3, 5] if tier != "thorough" else [1, 2, 3, 4, 5, 6, 8]):
         for slack in ((0, 16) if n < 8 else (16,)):   # exact-size query at n=8 did not finish in 900 s
             qs.append(Query(name="obu_walk_%s_n%d" % ("exact" if slack == 0 else "slack16", n), harness="C10/seqinfo.c", defines=["NMAX=%d" % n, "NFIX=%d" % n, "SLACK=%d" % slack, "SEQ_BODY_STUBBED=1"], unwind=n + 22,
